@@ -91,3 +91,26 @@ func (a *Analyzer) ByteAt(st *State, s *Slice, idx Lin) Lin {
 	}
 	return Lin{}
 }
+
+// StoreField stores v into field `name` of the struct p points to (entry set-up).
+func (a *Analyzer) StoreField(st *State, p Term, pt types.Type, name string, v Term) bool {
+	ptr, ok := p.(*Ptr)
+	if !ok {
+		return false
+	}
+	elem := pt.Underlying().(*types.Pointer).Elem()
+	stt, ok := elem.Underlying().(*types.Struct)
+	if !ok {
+		return false
+	}
+	for i := 0; i < stt.NumFields(); i++ {
+		if stt.Field(i).Name() == name {
+			a.store(st, &Ptr{Obj: ptr.Obj, Path: ptr.Path + pathField(stt, elem, i)}, v, stt.Field(i).Type())
+			return true
+		}
+	}
+	return false
+}
+
+// Nil returns the nil value of a pointer-like type.
+func Nil(t types.Type) Term { return NilT{Typ: t} }
